@@ -117,15 +117,15 @@ GROUP = dict(
     models={
         "quick": [_M("MCDispatch_n1_2.cfg"), _M("MCDispatch_n1_3.cfg"), _M("MCDispatch_n0_3.cfg", may_be_zero=("Reroute",)),
                   _M("MCDispatch_n2_2.cfg"), _M("MCDispatch_live.cfg", coverage=False),
-                  dict(cfg="MCDispatchScen_3.cfg", spec="MCDispatchScen.tla", emit=True, max_emit=130)],
+                  dict(cfg="MCDispatchScen_2.cfg", spec="MCDispatchScen.tla", emit=True, max_emit=150, coverage=False)],
         "thorough": [_M("MCDispatch_n1_2.cfg"), _M("MCDispatch_n1_3.cfg"), _M("MCDispatch_n1_3tie.cfg"),
                      _M("MCDispatch_n1_3same.cfg"), _M("MCDispatch_n1_eew.cfg"), _M("MCDispatch_n0_3.cfg", may_be_zero=("Reroute",)),
                      _M("MCDispatch_n2_2.cfg"), _M("MCDispatch_n2_3.cfg", workers=16, timeout=1800),
                      _M("MCDispatch_n1_4.cfg", workers=16, timeout=1800),
                      _M("MCDispatch_live.cfg", coverage=False), _M("MCDispatch_live3.cfg", coverage=False, timeout=1800),
-                     dict(cfg="MCDispatchScen_4.cfg", spec="MCDispatchScen.tla", emit=True, max_emit=1500, workers=8)],
+                     dict(cfg="MCDispatchScen_3.cfg", spec="MCDispatchScen.tla", emit=True, max_emit=2500, workers=8, coverage=False, timeout=1800)],
     },
-    gen_n={"quick": 60, "thorough": 1500},
+    gen_n={"quick": 70, "thorough": 1500},
     per_case_ms=60000,
     harness_timeout={"quick": 600, "thorough": 3600},
     trace_timeout={"quick": 600, "thorough": 3600},
